@@ -49,9 +49,9 @@ CLAIMED.update({
  "C16": ("exploration", "deterministic simulation (vectors build, stub engine): seeded open/search/close-handle/expiry-tick/segment-close histories, single task and interleaved tasks with yields in the cache's check-then-act windows; oracles: fresh twin opened from the same bytes, engine-side index accounting; race variant",
          "Seeded histories over pairs of nested / overlapping / disjoint exclusion bitmaps, eviction and reload through an explicit expiry event, 2-4 interleaved searchers; every search equals the same search on a fresh twin; no native index is used after release or released twice, an index behind an open handle survives every expiry tick, none is alive after the segment is closed. Sampling, not proof.",
          "Trusted: the pure-Go stub of go-faiss and its accounting; expiry through the verif hook (one cleanup pass = one monitor tick), the 1 s ticker is parked. Callers follow the API contract: filtered searches only on handles opened with requiresFiltering, eligible documents disjoint from the exclusion bitmap.", "6 C16"),
- "C17": ("fault_enumeration", "fault injection in the real kernel and the io.Writer: per seeded input, write failures at enumerated byte offsets (RLIMIT_FSIZE torn write, failing writer) plus /dev/full, /dev/null (fsync fails), directory at path, missing parent; oracle: error => no file, success => complete file equal to the fault-free run; fault-free retry",
+ "C17": ("fault_enumeration", "fault injection in the real kernel and the io.Writer: per seeded input, write failures at enumerated byte offsets (RLIMIT_FSIZE torn write, failing writer) plus /dev/full, /dev/null (fsync fails), directory at path, missing parent, and strace-injected EIO on write / fsync / close of the output; oracle: error => no file, success => complete file equal to the fault-free run; fault-free retry",
          "For each seeded segment / merge scenario: every named offset class (0, 1, flush boundaries +-1 with the merge buffer shrunk to 16-256 bytes, footer first/middle/last byte, last byte) plus seeded offsets - every offset for outputs up to 400 bytes in the thorough tier - for WriteTo (2 writer failure modes), Persist and Merge, and the four path faults; error => nothing at the path and no descriptor leaked, success => footer, CRC, full content; then a fault-free retry must succeed.",
-         "Faults that a process can provoke without a simulated disk: EFBIG torn writes, ENOSPC, EINVAL on fsync, EISDIR, ENOENT. EIO on close and lost writes after a successful fsync are not injected. A writer returning n<len(p) with nil error is outside the io.Writer contract and not injected.", "6 C17"),
+         "Faults that a process can provoke without a simulated disk: EFBIG torn writes, ENOSPC, EINVAL on fsync, EISDIR, ENOENT, and - through strace/ptrace, path-filtered - EIO from the first/second write, the fsync and the close of the output (counted as unavailable and not judged if ptrace is refused). Lost writes after a successful fsync are not injected. A writer returning n<len(p) with nil error is outside the io.Writer contract and not injected.", "6 C17"),
  "C18": ("fault_enumeration", "cancellation injection: per seeded merge, the close channel is closed before the call, inside the k-th write callback / engine call for enumerated k, after return, and by a concurrent closer task under the seeded scheduler; oracle: closed error => no file, nil => complete file equal to the uncancelled run",
          "A dry run counts the K write callbacks and engine calls of the merge; then every k (quick: a stratified sample when K is large) is cancelled once; nothing observable happens between two callbacks except isClosed polls, so these instants cover every distinguishable cancellation point of that input. A pre-closed channel must give the closed error and no file.",
          "Which polling site observed the closed channel is not visible from outside; the evidence counts aborted vs finished-normally outcomes per batch instead.", "6 C18"),
